@@ -455,6 +455,11 @@ func (vc *FnVC) mergeInto(b *ssa.BasicBlock) *State {
 		}
 		vc.havocKey(st, k)
 	}
+	for _, k := range sortedKeys(keys) {
+		if vc.keys[k] != nil && k != "$alloc" {
+			vc.assume(st, vc.wfHeap(st, k))
+		}
+	}
 	sort.Strings(freshOnly)
 	for _, k := range freshOnly {
 		ki := vc.keys[k]
@@ -1400,6 +1405,11 @@ func (vc *FnVC) havocSet(st *State, ws map[string]bool, all bool) {
 			vc.havocKey(st, "$alloc")
 		}
 		vc.assume(st, sx(">=", vc.get(st, "$alloc"), pre))
+	}
+	for _, k := range sortedKeys(ws) {
+		if vc.keys[k] != nil && k != "$alloc" {
+			vc.assume(st, vc.wfHeap(st, k))
+		}
 	}
 }
 
